@@ -239,6 +239,16 @@ pub fn check_c04(cfg: &Config, res: &CaseResult, acc: &mut Acc) {
                         ));
                     }
                 }
+                "STRING" => {
+                    // argument bytes between the opcode and the newline: two quotes at least
+                    if i.end - i.pos < 4 {
+                        problems.push((
+                            "string_quotes".into(),
+                            "STRING argument is a lone quote character, not a quoted string".into(),
+                            i.pos,
+                        ));
+                    }
+                }
                 "GET" | "PUT" => match &i.arg {
                     Arg::Int(v) if *v >= 0 => {}
                     other => problems.push((
